@@ -9,7 +9,7 @@ from ._machine import MachineCheck
 
 ID = "C06"
 RULE = (
-    "Generated histories of creates, overwrites (same UID, changed UID, UID of a deleted member, UID held by another member), deletes and restarts over 4-5 names and a pool of "
+    "Generated histories of creates, overwrites (same UID, changed UID, UID of a deleted member, UID held by another member), deletes and restarts over 4-5 names (in a third of the programs two of them differ only in letter case) and a pool of "
     "UIDs incl. case variants (Abc/abc), inner spaces, escaped ',' ';' and non-ASCII, objects without UID and objects whose first component (VTIMEZONE) has none; over HTTP (PUT and POST, "
     "tree-git and bare-git) and through the store API on tree-git, bare-git disk, bare-git memory and vdir. Model: uid(name) = TEXT-unescaped UID of the first component that has one, exact "
     "string comparison; a write is refused with no-uid-conflict / DuplicateUidError iff another live member of the same collection holds the UID. Non-trivial program: contains a refused real "
@@ -25,6 +25,14 @@ def uid_program(draw):
     if draw(st.booleans()):
         cfg["seed"].append({"slot": "b1", "bare": True, "meta": draw(st.sampled_from(["config", "file"])), "kind": "calendar"})
     names = [draw(gen.member_name(".ics", fancy=False)) for _ in range(3)] + [draw(gen.member_name(".ics", fancy=True)) for _ in range(2)]
+    if draw(st.integers(0, 2)) == 0:
+        # two member names that differ only in letter case are two members (git trees are case-sensitive)
+        stem = names[0][: -len(".ics")]
+        twin = draw(st.sampled_from([stem.swapcase(), stem.upper(), stem.capitalize()]))
+        if twin == stem:
+            stem, twin = "meeting" + stem, "Meeting" + stem
+            names[0] = stem + ".ics"
+        names[1] = twin + ".ics"
     uids = draw(st.lists(st.sampled_from(UIDS), min_size=2, max_size=4, unique=True))
     bodies = []
     for u in uids:
